@@ -175,6 +175,7 @@ Inductive req :=
 | RSplit (v body : N) (runs : list run)
 | RCommit (v : N)
 | RNewVersion (parent child : N)       (* newversion or branch *)
+| RDagMerge (parent : N) (others : list N) (child : N)   (* POST repo/merge: [parent] is the first parent *)
 | RObserve.
 
 Record step := {
@@ -262,15 +263,17 @@ Definition K_ISOLATION := 5%nat.  (* an operation was visible at another version
 Definition K_REJECTED := 6%nat.   (* a refused request changed the state *)
 Definition K_SUM := 7%nat.        (* body sizes do not sum to the non-zero voxel count, voxel in body 0 *)
 Definition K_READ := 8%nat.       (* a read endpoint failed *)
-Definition K_MAXLABEL := 9%nat.   (* maxlabel of a non-root version unset or below labels it inherits (finding C08-maxlabel) *)
+Definition K_MAXLABEL := 9%nat.   (* maxlabel of a non-root version unset or below labels it inherits (was finding C08-maxlabel, repaired by C08-8-fix) *)
 Definition K_MAXLABEL_ROOT := 10%nat.
+Definition K_DAGMERGE := 12%nat.   (* at the child of a DAG merge node the mapping follows the first parent only while
+                                      indices / blocks resolve over all parents (finding C08-dagmerge) *)
 Definition K_LOWRES := 11%nat.     (* scale 1 is not the down-sampling of scale 0 / its mapped read is not the mapping of it *)
 
 Definition first_nz (l : list nat) : nat :=
   fold_right (fun k acc => if Nat.eqb k 0 then acc else k) 0%nat l.
 Definition chk (ok : bool) (k : nat) : nat := if ok then 0%nat else k.
 (* classes reserved for recorded findings never hide another class found in the same history *)
-Definition known_class (k : nat) : bool := Nat.eqb k K_MAXLABEL.
+Definition known_class (k : nat) : bool := Nat.eqb k K_DAGMERGE.
 Definition pick (l : list nat) : nat :=
   match find (fun k => negb (Nat.eqb k 0) && negb (known_class k)) l with
   | Some k => k
@@ -415,7 +418,15 @@ Definition conserve_ok (r : req) (a b : obs) : bool :=
 Record runst := { rs_obs : list (N * obs) }.
 
 (* one snapshot: returns the class and the updated observation table *)
-Definition snap_step (g : geom) (st : step) (first : bool) (tbl : list (N * obs)) (s : snapshot)
+(* the inconsistency of finding C08-dagmerge: some body's index lists a supervoxel that the mapping
+   read at the same version assigns to another body *)
+Definition dag_signature (o : obs) : bool :=
+  existsb (fun lb => match bo_index (snd lb) with
+                     | Some i => existsb (fun e => negb (body_of o (ksv e) =? fst lb)) i
+                     | None => false
+                     end) (ob_labels o).
+
+Definition snap_step (g : geom) (mc : list N) (st : step) (first : bool) (tbl : list (N * obs)) (s : snapshot)
   : nat * list (N * obs) :=
   let base := match sn_base s with
               | Some v => match aget N.eqb v tbl with Some o => o | None => obs0 g end
@@ -425,7 +436,8 @@ Definition snap_step (g : geom) (st : step) (first : bool) (tbl : list (N * obs)
   let prev := aget N.eqb (sn_ver s) tbl in
   let own := match req_version (st_req st) with Some v => (v =? sn_ver s) && first | None => false end in
   let k1 := obs_class g o (sn_ver s =? 0) in
-  let k2 := match prev with
+  let k2 := if memN (sn_ver s) mc then 0%nat else   (* a merge child is not a copy of its first parent *)
+            match prev with
             | None =>
               (* first observation of a version: its nearest observed ancestor is committed, so the
                  version shows exactly that, except for what a request at the version itself did *)
@@ -444,18 +456,24 @@ Definition snap_step (g : geom) (st : step) (first : bool) (tbl : list (N * obs)
                 else chk (obs_same po o) K_REJECTED
               else chk (obs_same po o) K_ISOLATION
             end in
-  (pick [k1; k2], aset N.eqb (sn_ver s) o tbl).
+  let k := pick [k1; k2] in
+  ((if memN (sn_ver s) mc && negb (Nat.eqb k 0) && dag_signature o then K_DAGMERGE else k),
+   aset N.eqb (sn_ver s) o tbl).
 
-Definition step_class (g : geom) (acc : nat * list (N * obs)) (st : step) : nat * list (N * obs) :=
+Definition step_class (g : geom) (mc : list N) (acc : nat * list (N * obs)) (st : step) : nat * list (N * obs) :=
   let r := fold_left (fun (a : nat * bool * list (N * obs)) s =>
                         let '(k, first, tbl) := a in
-                        let '(k', tbl') := snap_step g st first tbl s in
+                        let '(k', tbl') := snap_step g mc st first tbl s in
                         (pick [k; k'], false, tbl'))
                      (st_snaps st) (fst acc, true, snd acc) in
   (fst (fst r), snd r).
 
+(* children of DAG merge nodes *)
+Definition merge_children (h : history) : list N :=
+  flat_map (fun st => match st_req st with RDagMerge _ _ c => [c] | _ => [] end) (h_steps h).
+
 Definition spec_class (h : history) : nat :=
-  fst (fold_left (step_class (h_geom h)) (h_steps h) (0%nat, [])).
+  fst (fold_left (step_class (h_geom h) (merge_children h)) (h_steps h) (0%nat, [])).
 
 (* ---------------- the model run ---------------- *)
 Definition fstate_vol (g : geom) (st : fstate) : vol N :=
@@ -534,6 +552,7 @@ Definition req_ops (g : geom) (lay : vol N) (s : mstate) (st : step) : list mop 
     [MData v (OSplit body (hdN (st_ret st)) (runs_masks g runs (map fst rl)) (triples (tl (st_ret st))))]
   | RCommit _ => []
   | RNewVersion p c => [MNewVersion p c]
+  | RDagMerge p _ c => [MNewVersion p c]     (* the machine has no merge nodes: first parent only *)
   | RObserve => []
   end.
 
